@@ -190,8 +190,16 @@ def load(inf, lazy=False):
                     dummy_channel = im.illumination[dummy_channel]
                     im = im.drop(dummy_channel.item(), illumination)
                 if '_image_scaling' in meta:
-                    smin, smax = yaml.safe_load(meta['_image_scaling'])
-                    im = (im-im.min())*(smax-smin)/(im.max()-im.min())+smin
+                    scaling = yaml.safe_load(meta['_image_scaling'])
+                    if len(scaling) == 3:
+                        # [smin, smax, stored number that smax maps to]
+                        smin, smax, full_scale = scaling
+                        im = im*(smax-smin)/full_scale+smin
+                    else:
+                        # files written before the full scale was recorded:
+                        # assume the image spans the whole interval
+                        smin, smax = scaling
+                        im = (im-im.min())*(smax-smin)/(im.max()-im.min())+smin
                 im.attrs = unpack_attrs(meta)
                 return im
         except KeyError or TypeError:
@@ -427,6 +435,20 @@ def _save_im(filename, im, depth=8):
         if im.max() <= 1:
             im = im * ((2**depth)-1) + .499999
             im = im.astype(typestr)
+            full_scale = (2**depth)-1
+        else:
+            full_scale = None
+    else:
+        full_scale = 1
+
+    if metadat and full_scale is not None and '_image_scaling' in metadat:
+        # record which stored number the upper end of the scaling interval
+        # was mapped to, so that load can undo the scaling exactly
+        scaling = yaml.safe_load(metadat['_image_scaling'])
+        if scaling is not None:
+            metadat['_image_scaling'] = yaml.dump(
+                [float(scaling[0]), float(scaling[1]), full_scale])
+            tiffinfo[270] = yaml.dump(metadat, default_flow_style=True)
 
     if metadat:
         pilimage.fromarray(im).save(filename, tiffinfo=tiffinfo)
